@@ -198,14 +198,16 @@ func (g *gen) genError(typs []types.Type) error {
 	p.P("return func(%s) %s {", strings.Join(firstVarTypes, ", "), wrap(strings.Join(resultStrs[len(resultStrs)-1], ", ")))
 	p.In()
 	for i := range params {
-		p.P("%s, err%d := %s(%s)", strings.Join(vars[i+1], ", "), i, fs[i], strings.Join(vars[i], ", "))
-		p.P("if err%d != nil {", i)
+		errVar := "err" + strconv.Itoa(i)
+		// a stage may return nothing but an error: then there is nothing before the error variable
+		p.P("%s := %s(%s)", strings.Join(append(append([]string{}, vars[i+1]...), errVar), ", "), fs[i], strings.Join(vars[i], ", "))
+		p.P("if %s != nil {", errVar)
 		p.In()
-		p.P("return %s, err%d", strings.Join(zeros, ", "), i)
+		p.P("return %s", strings.Join(append(append([]string{}, zeros...), errVar), ", "))
 		p.Out()
 		p.P("}")
 	}
-	p.P("return %s, nil", strings.Join(vars[len(vars)-1], ", "))
+	p.P("return %s", strings.Join(append(append([]string{}, vars[len(vars)-1]...), "nil"), ", "))
 	p.Out()
 	p.P("}")
 	p.Out()
